@@ -90,7 +90,7 @@ func (cm *connManager) handleNewConn(regManager *cj.RegistrationManager, clientC
 
 	fd, err := clientConn.File()
 	if err != nil {
-		logger.Errorln("failed to get file descriptor on clientConn:", err)
+		logger.Errorln("failed to get file descriptor on clientConn:", generalizeErr(err))
 		return
 	}
 
@@ -161,14 +161,14 @@ func (cm *connManager) handleNewTCPConn(regManager *cj.RegistrationManager, clie
 	var err error
 	cc, err = regManager.GeoIP.CC(remoteIP)
 	if err != nil {
-		logger.Errorln("Failed to get CC:", err)
+		logger.Errorln("Failed to get CC:", generalizeErr(err))
 		return
 	}
 	if cc != "unk" {
 		// logger.Infoln("CC not unk:", cc, "ASN:", asn) // TESTING
 		asn, err = regManager.GeoIP.ASN(remoteIP)
 		if err != nil {
-			logger.Errorln("Failed to get ASN:", err)
+			logger.Errorln("Failed to get ASN:", generalizeErr(err))
 			return
 		}
 	}
@@ -189,7 +189,7 @@ func (cm *connManager) handleNewTCPConn(regManager *cj.RegistrationManager, clie
 	deadline := time.Now().Add(timeout)
 	err = clientConn.SetDeadline(deadline)
 	if err != nil {
-		logger.Errorln("error occurred while setting deadline:", err)
+		logger.Errorln("error occurred while setting deadline:", generalizeErr(err))
 	}
 
 	if count < 1 {
@@ -317,7 +317,6 @@ readLoop:
 		for i, t := range possibleTransports {
 			wrappedReg, wrappedConn, err := t.WrapConnection(&received, clientConn, originalDstIP, regManager)
 
-			err = generalizeErr(err)
 			if errors.Is(err, transports.ErrTryAgain) {
 				continue transports
 			} else if errors.Is(err, transports.ErrNotTransport) {
@@ -329,7 +328,7 @@ readLoop:
 				// to wrap the connection, which means received and the connection
 				// may no longer be valid. We should just give up on this connection.
 				d := time.Until(deadline)
-				logger.Warnf("got unexpected error from transport %s, sleeping %v then giving up: %v\n", t.Name(), d, err)
+				logger.Warnf("got unexpected error from transport %s, sleeping %v then giving up: %v\n", t.Name(), d, generalizeErr(err))
 				cj.Stat().ConnErr()
 				cm.checkToError(asn, cc, isIPv4)
 				time.Sleep(d)
@@ -349,7 +348,7 @@ readLoop:
 			// We found our transport! First order of business: disable deadline
 			err = wrapped.SetDeadline(time.Time{})
 			if err != nil {
-				logger.Errorln("error occurred while setting deadline:", err)
+				logger.Errorln("error occurred while setting deadline:", generalizeErr(err))
 			}
 
 			logger.SetPrefix(fmt.Sprintf("[%s] %s ", t.LogPrefix(), reg.IDString()))
@@ -1635,6 +1634,21 @@ func generalizeErr(err error) error {
 		}
 	}
 
-	// if it is not a well known error, return it
-	return err
+	// If it is not a well known error do not return it: its text may embed the client's address
+	// (a *net.OpError prints both endpoints of the connection).
+	return addressFreeErr(err)
+}
+
+// addressFreeErr describes an error that generalizeErr does not know without repeating its text:
+// the failed operation and the errno when there are ones, otherwise the type of the error.
+func addressFreeErr(err error) error {
+	var errno syscall.Errno
+	if errors.As(err, &errno) {
+		var opErr *net.OpError
+		if errors.As(err, &opErr) {
+			return fmt.Errorf("%s: %w", opErr.Op, errno)
+		}
+		return errno
+	}
+	return fmt.Errorf("unrecognized error (%T)", err)
 }
